@@ -55,6 +55,10 @@ class _TextCueParser:
   def __init__(self, paragraph: model.P, line_number: int) -> None:
     self.line_num: int = line_number
     self.parent: model.ContentElement = paragraph
+    self.paragraph: model.P = paragraph
+
+    # begin, relative to the cue, of the text that follows the last timestamp tag
+    self.begin: typing.Optional[Fraction] = None
 
     # handle the special case of ruby elements where children cannot be added one by one
     self.ruby_rbc: typing.Optional[model.Rbc] = None
@@ -74,20 +78,10 @@ class _TextCueParser:
 
   def _handle_ts(self, token: TimestampTagToken):
 
-    span = self._make_span(self.parent)
-    self.parent.push_child(span)
-    self.parent = span
-
     ts = vtt_timestamp_to_secs(token.timestamp)
-    parent_begin = None
-    parent = self.parent
-    while parent is not None:
-      parent_begin = parent.get_begin()
-      if parent_begin is not None:
-        break
-      parent = parent.parent()
-    if ts is not None and parent_begin is not None and parent_begin <= ts:
-      span.set_begin(ts - parent_begin)
+    cue_begin = self.paragraph.get_begin()
+    if ts is not None and cue_begin is not None and cue_begin <= ts:
+      self.begin = ts - cue_begin
     else:
       LOGGER.warning("Invalid timestamp tag %s", token.timestamp)
 
@@ -177,6 +171,7 @@ class _TextCueParser:
       if i > 0:
         self.parent.push_child(model.Br(self.parent.get_doc()))
       span = self._make_span(self.parent)
+      span.set_begin(self.begin)
       span.push_child(model.Text(self.parent.get_doc(), line))
       if isinstance(self.parent, model.Ruby):
         rb = model.Rb(self.parent.get_doc())
